@@ -107,6 +107,26 @@ def run(rep, wd, tier, seed):
             data = ipmc.write_file(msgs, enc, bc, False)
             traces.append(trace(len(traces), data, True, False, fam, '%s vbs writer file with 0x40 0x40 at 1012-1013 (%s)' %
                                 (enc, data[1012:1014].hex())))
+    # near misses of the don't-care: only ONE of the bytes 1012 / 1013 is 0x40 (and bytes 2026-2027 are 0x40 0x40):
+    # the file is unblocked and must be reported unblocked
+    for enc, fam in (('latin_1', 'ascii'), ('cp500', 'ebcdic')):
+        fill = '@' if enc == 'latin_1' else ' '
+        other = 'x'
+        for which in (0, 1):
+            base = {'MTI': '1240', 'DE3': '123456'}
+            head = len(isoc.iso8583.dumps(dict(base), encoding=enc)) + 4 + 3       # record prefix + DE72 prefix
+            # DE72 text position p sits at file offset head + p
+            txt = [other] * 999
+            for off, ch in ((1012, fill if which == 0 else other), (1013, fill if which == 1 else other)):
+                if 0 <= off - head < 999:
+                    txt[off - head] = ch
+            m1 = dict(base, DE72=''.join(txt))
+            d1 = ipmc.write_file([m1], enc, bc, False)
+            # second record: fill characters over offsets 2026..2027
+            m2 = {'MTI': '1240', 'DE3': '123456', 'DE72': fill * 999, 'DE127': fill * 200}
+            data = ipmc.write_file([m1, m2], enc, bc, False)
+            traces.append(trace(len(traces), data, True, False, fam,
+                                '%s vbs writer file, bytes 1012-1013 = %s, bytes 2026-2027 = %s' % (enc, data[1012:1014].hex(), data[2026:2028].hex())))
     # invalid classes at their boundaries
     good = ipmc.write_file([{'MTI': '1240', 'DE3': '123456'}], 'latin_1', bc, False)
     for n in (0, 1, 4, 20, 22, 23):
@@ -124,10 +144,26 @@ def run(rep, wd, tier, seed):
         bm[(bit - 1) // 8] |= 1 << (7 - (bit - 1) % 8)
         data = struct.pack('>I', 40) + b'1240' + bytes(bm) + b'0' * 60
         traces.append(trace(len(traces), data, False, False, 'ascii', 'first bitmap uses unconfigured bit %d' % bit))
+    # the configuration is changed at run time AFTER inspections have been made: element 7 configured, element 127 removed
+    from cardutil import config as cfgmod
+    saved = cfgmod.config['bit_config']
+    changed = dict(saved)
+    changed['7'] = {'field_name': 'added at run time', 'field_type': 'FIXED', 'field_length': 10}
+    del changed['127']
+    traces2 = []
+    try:
+        cfgmod.config['bit_config'] = changed
+        f7 = ipmc.write_file([{'MTI': '1240', 'DE3': '123456', 'DE7': '0123456789'}], 'latin_1', changed, False)
+        traces2.append(trace(0, f7, True, False, 'ascii', 'writer file using element 7, configured at run time after earlier inspections'))
+        f127 = ipmc.write_file([{'MTI': '1240', 'DE3': '123456', 'DE127': 'network data'}], 'latin_1', saved, False)
+        traces2.append(trace(1, f127, False, False, 'ascii', 'first bitmap uses element 127 whose configuration was removed at run time'))
+    finally:
+        cfgmod.config['bit_config'] = saved
+    consts2 = isoc.consts(changed, 'latin_1')
     cfgp = write_cfg(os.path.join(wd, 'Trace_Inspect.cfg'),
                      'CONSTANTS P = 1012 T = 2 PAD = 64 MaxLen = %d\nSPECIFICATION TSpec\nPOSTCONDITION AllAccepted\n'
                      'CHECK_DEADLOCK FALSE\n' % maxlen)
-    batches = [{'consts': None, 'traces': p} for p in core.split(traces, 6)]
+    batches = [{'consts': None, 'traces': p} for p in core.split(traces, 6)] + [{'consts': consts2, 'traces': traces2}]
     consts = isoc.consts(bc, 'latin_1')
 
     def describe(t, rj):
@@ -136,8 +172,8 @@ def run(rep, wd, tier, seed):
     from concurrent.futures import ThreadPoolExecutor
 
     def one(i):
-        return core.tlc_batch('Trace_Inspect', cfgp, wd, {'consts': consts, 'traces': batches[i]['traces']}, 'insp-%d' % i)
-    with ThreadPoolExecutor(6) as ex:
+        return core.tlc_batch('Trace_Inspect', cfgp, wd, {'consts': batches[i]['consts'] or consts, 'traces': batches[i]['traces']}, 'insp-%d' % i)
+    with ThreadPoolExecutor(7) as ex:
         outs = list(ex.map(one, range(len(batches))))
     for b, (acc, rejects, res) in zip(batches, outs):
         rep.add_tlc('Trace_Inspect batch', res)
